@@ -479,13 +479,14 @@ inductive Clause where
   | withC (keep : List Nat) (items : List (Nat × E))
   | create (paths : List CPath)
   | merge (p : NPat) (onCreate onMatch : List SetItem)
+  | mergeRel (a : NPat) (ty : Nat) (b : NPat)      -- MERGE (a)-[:ty]->(b), both ends unbound
   | set (items : List SetItem)
   | remove (items : List RemItem)
   | delete (detach : Bool) (xs : List Nat)
   deriving DecidableEq, Repr
 
 def Clause.isWrite : Clause → Bool
-  | .create _ | .merge .. | .set _ | .remove _ | .delete .. => true
+  | .create _ | .merge .. | .mergeRel .. | .set _ | .remove _ | .delete .. => true
   | _ => false
 
 structure Stmt where
@@ -618,12 +619,35 @@ def applyMerge (g : G) (ps : Props) (row : Row) (p : NPat) (onCreate onMatch : L
       let g' ← applySet g1 ps row' onCreate
       pure (g', row')
 
+/-- MERGE of a one-relationship pattern whose two ends are new pattern nodes: the whole
+pattern is matched (two **distinct** nodes carrying *all* the labels and the properties of
+their position, joined by a relationship of the type in the written direction) or the whole
+pattern is created.  Label sets are sets: the written order of `:A:B` is irrelevant. -/
+def applyMergeRel (g : G) (ps : Props) (row : Row) (a : NPat) (ty : Nat) (b : NPat) : R (G × Row) := do
+  let ra ← evalProps g ps row a.props
+  let rb ← evalProps g ps row b.props
+  if ra.any (fun kv => kv.2 = .null) || rb.any (fun kv => kv.2 = .null) then .error .unsup
+  else
+    let bindv (r : Row) (x : Option Nat) (id : Nat) : Row :=
+      match x with | some v => Row.bind r v (.node id) | none => r
+    match g.rels.find? (fun r => r.ty = ty && r.src ≠ r.tgt &&
+        (match g.node? r.src, g.node? r.tgt with
+          | some s, some t => nodeMatches s a.labels ra && nodeMatches t b.labels rb
+          | _, _ => false)) with
+    | some r => pure (g, bindv (bindv row a.var r.src) b.var r.tgt)
+    | none =>
+      let (g1, ia) := g.addNode (linsertAll [] a.labels) (psetAll [] ra)
+      let (g2, ib) := g1.addNode (linsertAll [] b.labels) (psetAll [] rb)
+      let (g3, _) ← g2.addRel ia ib ty []
+      pure (g3, bindv (bindv row a.var ia) b.var ib)
+
 /-- one write clause on one row; `del` is the node-deletion primitive (repaired / legacy) -/
 def applyWrite (del : G → Bool → Nat → R G) (ps : Props) (c : Clause) (g : G) (row : Row) :
     R (G × Row) :=
   match c with
   | .create paths => foldR (createPath g ps row) (g, row) paths
   | .merge p oc om => applyMerge g ps row p oc om
+  | .mergeRel a ty b => applyMergeRel g ps row a ty b
   | .set items => do pure (← applySet g ps row items, row)
   | .remove items => do pure (← foldR (applyRem row) g items, row)
   | .delete detach xs => do pure (← foldR (applyDel del detach row) g xs, row)
@@ -752,6 +776,7 @@ def Clause.mapE (f : E → E) : Clause → Clause
   | .withC keep items => .withC keep (mapProps f items)
   | .create paths => .create (paths.map (CPath.mapE f))
   | .merge p oc om => .merge (p.mapE f) (oc.map (SetItem.mapE f)) (om.map (SetItem.mapE f))
+  | .mergeRel a ty b => .mergeRel (a.mapE f) ty (b.mapE f)
   | .set items => .set (items.map (SetItem.mapE f))
   | .remove items => .remove items
   | .delete d xs => .delete d xs
